@@ -1065,13 +1065,13 @@ func (c *Ctx) ruleReaderRecords(rr *RuleRep) {
 	}
 	var se, up ssa.Instruction
 	eachInstr(reader, func(in ssa.Instruction) {
-		if c.isCallTo(in, setErr) {
-			se = in
-		}
 		if c.isCallTo(in, upd) {
 			up = in
 		}
 	})
+	for _, rec := range c.errRecords(reader) {
+		se = rec.At
+	}
 	if se == nil || up == nil {
 		rr.Bad(FuncName(reader)+"/observable", reader.Pos(), "the reader goroutine does not both record the error and report Closed")
 		return
